@@ -270,6 +270,8 @@ pub enum ConvVal {
 pub struct PObs {
     pub coltype: u8,
     pub inner: Inner,
+    /// what `Value::is_null()` said
+    pub is_null: bool,
     /// (target type name, converted value or panic message)
     pub conv: Vec<(&'static str, Result<ConvVal, String>)>,
 }
@@ -558,6 +560,7 @@ fn panic_msg(p: Box<dyn std::any::Any + Send>) -> String {
 fn observe_param(p: ParamValue<'_>, conv: bool) -> PObs {
     let coltype = p.coltype as u8;
     let v = p.value;
+    let is_null = v.is_null();
     let inner = match v.into_inner() {
         ValueInner::NULL => Inner::Null,
         ValueInner::Bytes(b) => Inner::Bytes(b.to_vec()),
@@ -625,7 +628,7 @@ fn observe_param(p: ParamValue<'_>, conv: bool) -> PObs {
             Inner::Null => {}
         }
     }
-    PObs { coltype, inner, conv: out }
+    PObs { coltype, inner, is_null, conv: out }
 }
 
 impl<W: Read + Write> MysqlShim<W> for ScriptShim {
@@ -769,6 +772,26 @@ impl<W: Read + Write> MysqlShim<W> for DefaultInitShim {
     }
     fn after_authentication(&mut self, ctx: &AuthenticationContext<'_>) -> Result<(), ShimErr> {
         <ScriptShim as MysqlShim<W>>::after_authentication(&mut self.0, ctx)
+    }
+}
+
+/// Only the four required methods: `on_init`, `tls_config` and `after_authentication` are the
+/// trait's own defaults (no TLS offered, every login accepted, every database switch accepted).
+pub struct MinimalShim(pub ScriptShim);
+
+impl<W: Read + Write> MysqlShim<W> for MinimalShim {
+    type Error = ShimErr;
+    fn on_prepare(&mut self, q: &str, info: StatementMetaWriter<'_, W>) -> Result<(), ShimErr> {
+        self.0.on_prepare(q, info)
+    }
+    fn on_execute(&mut self, id: u32, p: ParamParser<'_>, r: QueryResultWriter<'_, W>) -> Result<(), ShimErr> {
+        self.0.on_execute(id, p, r)
+    }
+    fn on_close(&mut self, stmt: u32) {
+        <ScriptShim as MysqlShim<W>>::on_close(&mut self.0, stmt)
+    }
+    fn on_query(&mut self, q: &str, r: QueryResultWriter<'_, W>) -> Result<(), ShimErr> {
+        self.0.on_query(q, r)
     }
 }
 
